@@ -143,6 +143,9 @@ func (g *srvGen) variant(r2 *rand.Rand) int {
 		for _, c := range g.clients {
 			if !c.static {
 				c.cid = u32b(addrs[r2.Intn(len(addrs))])
+				if r2.Intn(3) == 0 { // ... or the text under which the lease table files that address
+					c.cid = []byte(fmt.Sprintf("uip(%x)", addrs[r2.Intn(len(addrs))]))
+				}
 				break
 			}
 		}
